@@ -424,6 +424,12 @@ var genScenarios = map[string]func(g *Gen) []scriptStep{
 			opStep(&Op{Kind: "UpdateSub", Sub: &SubReq{Name: "projects/p/subscriptions/f1", Topic: sT0, Filter: "\u00a0attributes:x"}, Paths: []string{"filter"}}),
 			opStep(&Op{Kind: "UpdateSub", Sub: &SubReq{Name: "projects/p/subscriptions/f2", Topic: sT0, Filter: " \t"}, Paths: []string{"filter"}}),
 			subStep(&SubReq{Name: "projects/p/subscriptions/f9", Topic: sT0, Filter: "attributes:x\u2003"}),
+			// ... and filters that fail in the LEXER: unterminated literal, bad escape, NUL, unterminated comment
+			opStep(&Op{Kind: "UpdateSub", Sub: &SubReq{Name: "projects/p/subscriptions/f0", Topic: sT0, Filter: `attributes.x = "abc`}, Paths: []string{"filter"}}),
+			opStep(&Op{Kind: "UpdateSub", Sub: &SubReq{Name: "projects/p/subscriptions/f1", Topic: sT0, Filter: `attributes.x = "\q"`}, Paths: []string{"filter"}}),
+			opStep(&Op{Kind: "UpdateSub", Sub: &SubReq{Name: "projects/p/subscriptions/f2", Topic: sT0, Filter: "attributes:x\x00"}, Paths: []string{"filter"}}),
+			opStep(&Op{Kind: "UpdateSub", Sub: &SubReq{Name: "projects/p/subscriptions/f3", Topic: sT0, Filter: `attributes:x /* c`}, Paths: []string{"filter"}}),
+			subStep(&SubReq{Name: "projects/p/subscriptions/f8", Topic: sT0, Filter: `attributes.x = "abc`}),
 			opStep(&Op{Kind: "GetSub", Name: "projects/p/subscriptions/f2"}), opStep(&Op{Kind: "GetSub", Name: "projects/p/subscriptions/f0"}),
 			opStep(&Op{Kind: "GetSub", Name: "projects/p/subscriptions/f1"}), pullStep("projects/p/subscriptions/f0", 20), pullStep("projects/p/subscriptions/f2", 20))
 		return s
@@ -477,6 +483,39 @@ var genScenarios = map[string]func(g *Gen) []scriptStep{
 			opStep(&Op{Kind: "DeleteTopic", Name: "projects/p/topics/t2"}),
 			advStep(5 * time.Second), job(), job(), job(),
 			opStep(&Op{Kind: "ListTopics", Project: "projects/p", Size: 10}), opStep(&Op{Kind: "GetSub", Name: sS0}),
+		}
+	},
+	// a late nack / zero deadline for a delivery that was ACKNOWLEDGED on its last permitted attempt
+	// (attempts >= max_delivery_attempts, full dead-letter policy): nothing happens -- in particular
+	// nothing is forwarded to the dead-letter topic (C03)
+	"nack-after-ack-dl": func(g *Gen) []scriptStep {
+		var acked []string
+		return []scriptStep{
+			opStep(&Op{Kind: "CreateTopic", Name: sT0}), opStep(&Op{Kind: "CreateTopic", Name: sT1}),
+			subStep(&SubReq{Name: sS0, Topic: sT0, DL: dl(sT1, 1), Retry: retry(time.Second)}),
+			subStep(&SubReq{Name: sS1, Topic: sT1}),
+			pubStep(sT0, "", "k1"), pullStep(sS0, 10),
+			func(g *Gen, d *Dump, vnow int64) Action {
+				s := d.subByName(sS0)
+				acked = acked[:0]
+				for _, x := range d.Dels {
+					if s != nil && x.Sub == s.ID && x.Completed == nil && x.Attempts > 0 {
+						acked = append(acked, x.ID.String())
+					}
+				}
+				return Action{Op: &Op{Kind: "Ack", Name: sS0, AckIDs: append([]string(nil), acked...)}}
+			},
+			func(g *Gen, d *Dump, vnow int64) Action {
+				return Action{Op: &Op{Kind: "StreamAckNack", Nacks: append([]string(nil), acked...)}}
+			},
+			pullStep(sS1, 10),
+			func(g *Gen, d *Dump, vnow int64) Action {
+				return Action{Op: &Op{Kind: "ModAck", Name: sS0, AckIDs: append([]string(nil), acked...), Seconds: 0}}
+			},
+			func(g *Gen, d *Dump, vnow int64) Action {
+				return Action{Op: &Op{Kind: "Ack", Name: sS0, AckIDs: append([]string(nil), acked...)}}
+			},
+			pullStep(sS0, 10), pullStep(sS1, 10),
 		}
 	},
 	"ordered-replay": func(g *Gen) []scriptStep {
@@ -558,20 +597,26 @@ var genScenarios = map[string]func(g *Gen) []scriptStep{
 	// a filter replaced after it was first used, and a subscription re-created under the
 	// same name with another filter (C01, C02, C07, C12)
 	"filter-replaced": func(g *Gen) []scriptStep {
-		s := []scriptStep{
+		pub := func(n int) scriptStep {
+			return opStep(&Op{Kind: "Publish", Name: sT0, Msgs: []PubMsg{
+				{Data: []byte(fmt.Sprintf(`{"n":%d}`, n)), Attrs: map[string]string{"x": "v"}},
+				{Data: []byte(fmt.Sprintf(`{"n":%d}`, n+1)), Attrs: map[string]string{"y": ""}},
+				{Data: []byte(fmt.Sprintf(`{"n":%d}`, n+2))}}})
+		}
+		// both ways of replacing a filter, one after the other: an update of the filter field, and a
+		// re-creation of the subscription under the same name -- each followed by messages on which
+		// the old and the new filter disagree
+		return []scriptStep{
 			opStep(&Op{Kind: "CreateTopic", Name: sT0}),
 			subStep(&SubReq{Name: sS0, Topic: sT0, Filter: `attributes.x = "v"`}),
-			opStep(&Op{Kind: "Publish", Name: sT0, Msgs: []PubMsg{{Data: []byte(`{"n":1}`), Attrs: map[string]string{"x": "v"}}, {Data: []byte(`{"n":2}`), Attrs: map[string]string{"y": ""}}}}),
-			pullStep(sS0, 10),
+			pub(1), pullStep(sS0, 10),
+			opStep(&Op{Kind: "UpdateSub", Sub: &SubReq{Name: sS0, Topic: sT0, Filter: g.pick([]string{`attributes:y`, `NOT attributes:x`})}, Paths: []string{"filter"}}),
+			pub(4), pullStep(sS0, 10),
+			opStep(&Op{Kind: "UpdateSub", Sub: &SubReq{Name: sS0, Topic: sT0, Filter: ``}, Paths: []string{"filter"}}),
+			pub(7), pullStep(sS0, 10),
+			opStep(&Op{Kind: "DeleteSub", Name: sS0}), subStep(&SubReq{Name: sS0, Topic: sT0, Filter: `attributes:y`}),
+			pub(10), pullStep(sS0, 10),
 		}
-		if g.chance(0.5) {
-			s = append(s, opStep(&Op{Kind: "UpdateSub", Sub: &SubReq{Name: sS0, Topic: sT0, Filter: g.pick([]string{`attributes:y`, ``, `NOT attributes:x`})}, Paths: []string{"filter"}}))
-		} else {
-			s = append(s, opStep(&Op{Kind: "DeleteSub", Name: sS0}), subStep(&SubReq{Name: sS0, Topic: sT0, Filter: `attributes:y`}))
-		}
-		return append(s,
-			opStep(&Op{Kind: "Publish", Name: sT0, Msgs: []PubMsg{{Data: []byte(`{"n":3}`), Attrs: map[string]string{"x": "v"}}, {Data: []byte(`{"n":4}`), Attrs: map[string]string{"y": ""}}, {Data: []byte(`{"n":5}`)}}}),
-			pullStep(sS0, 10))
 	},
 	// same-key chain: ack, prune of the completed predecessor, seek back (C05, C15)
 	"ordered-chain": func(g *Gen) []scriptStep {
@@ -618,7 +663,7 @@ var genScenarios = map[string]func(g *Gen) []scriptStep{
 	},
 }
 
-var scenarioNames = []string{"ordered-replay", "ordered-prune", "nack-mixed-attempts", "dl-shared-target", "filter-literals", "ttl-raised", "prune-topics-batch-one", "dl-deleted-topic", "dl-ordered-target", "dl-filtered-target", "snapshot-bystander", "seek-revive-late", "idle-expired-live", "filter-replaced", "ordered-chain", "lease-changes"}
+var scenarioNames = []string{"ordered-replay", "ordered-prune", "nack-mixed-attempts", "nack-after-ack-dl", "dl-shared-target", "filter-literals", "ttl-raised", "prune-topics-batch-one", "dl-deleted-topic", "dl-ordered-target", "dl-filtered-target", "snapshot-bystander", "seek-revive-late", "idle-expired-live", "filter-replaced", "ordered-chain", "lease-changes"}
 
 // scenariosFor lists the templates a generator profile may start with
 func scenariosFor(profile string) []string {
